@@ -120,6 +120,9 @@ WantRow(root, cols, y, x, acc) ==
 Want(root, rows, cols) == [y \in 1..rows |-> WantRow(root, cols, y - 1, 0, <<>>)]
 
 Judged(want, rows, cols) == \A y \in 1..rows : \A x \in 1..cols : want[y][x].k # "u"
+(* A row that holds a cell the property says nothing about is not judged (what a terminal shows  *)
+(* behind a glyph it was never given whole is not stated either); every other row is.          *)
+RowJudged(want, y, cols) == \A x \in 1..cols : want[y][x].k # "u"
 
 (* A displayed cell is [k |-> "g", g, w, fg, plain] (plain: no background,  *)
 (* attribute, underline or hyperlink), [k |-> "c"] (covered by the wide     *)
@@ -133,6 +136,8 @@ CellConforms(shown, want) ==
 
 ScreenConforms(shown, want, rows, cols) ==
   \A y \in 1..rows : \A x \in 1..cols : CellConforms(shown[y][x], want[y][x])
+ScreenConformsJ(shown, want, rows, cols) ==
+  \A y \in 1..rows : RowJudged(want, y, cols) => \A x \in 1..cols : CellConforms(shown[y][x], want[y][x])
 
 (* names of the failing clauses, for the rejection signature *)
 BadFields(shown, want) ==
@@ -145,7 +150,7 @@ BadFields(shown, want) ==
        \cup (IF ~shown.plain THEN {"style"} ELSE {})
 
 BadCells(shown, want, rows, cols) ==
-  {<<y, x>> \in (1..rows) \X (1..cols) : ~CellConforms(shown[y][x], want[y][x])}
+  {<<y, x>> \in (1..rows) \X (1..cols) : RowJudged(want, y, cols) /\ ~CellConforms(shown[y][x], want[y][x])}
 FirstBad(shown, want, rows, cols) ==
   LET b == BadCells(shown, want, rows, cols)
   IN IF b = {} THEN <<>>
